@@ -33,6 +33,7 @@ type bodyScript struct {
 	Err         string // error text; "unexpected EOF" maps to io.ErrUnexpectedEOF
 	Stall       bool   // the body blocks after StallAt wire bytes until the request context ends
 	StallAt     int
+	DelayMs     int           // wait this long before answering (the request context can end the wait)
 	StallBefore bool          // block before the response headers until the request context ends
 	Gate        chan struct{} // non-nil: the round trip waits (after signalling Entered) until the harness closes it
 	Entered     chan struct{} // closed by the transport when the gated round trip has started
@@ -150,6 +151,13 @@ func (m *memTransport) RoundTrip(r *http.Request) (*http.Response, error) {
 	if bs.StallBefore {
 		<-r.Context().Done()
 		return nil, r.Context().Err()
+	}
+	if bs.DelayMs > 0 {
+		select {
+		case <-time.After(time.Duration(bs.DelayMs) * time.Millisecond):
+		case <-r.Context().Done():
+			return nil, r.Context().Err()
+		}
 	}
 	if bs.Gate != nil {
 		if bs.Entered != nil {
